@@ -5,11 +5,11 @@ go 1.23.0
 require (
 	cosmossdk.io/core v1.0.0
 	github.com/cosmos/iavl v1.2.0
+	github.com/cosmos/ics23/go v0.11.0
 )
 
 require (
 	github.com/cosmos/gogoproto v1.7.0 // indirect
-	github.com/cosmos/ics23/go v0.11.0 // indirect
 	github.com/emicklei/dot v1.8.0 // indirect
 	github.com/gogo/protobuf v1.3.2 // indirect
 	github.com/golang/snappy v0.0.4 // indirect
